@@ -185,8 +185,8 @@ fn sweep(tier: Tier, seed: u64, idx: u64, of: u64, stats: &mut Stats) {
 pub fn def() -> PropDef {
     let mut d = PropDef::new("C02", "window scenarios: earlier purchases by 1-4 affiliates (one registered), an anchor sale priced for a loss, and 0-7 further events (acquisitions, later sales, global or per-affiliate splits, RoC) at offsets drawn from {-61,-32,-31,-30,-29,-15,-1,0 before/after in file order,+1,+15,+29,+30,+31,+32,+61} days; plus a deterministic sweep giving every (offset, file order, buyer = seller/other/registered) cell a fixed number of random fillings; plus scenarios whose sales carry a declared superficial loss = computed +/- {0,0.0005,0.0009,0.0011,0.01,25} with or without '!'. Compared with the exact reference model: denied amount, ratio (as a value), reported gain, automatic adjustments, accept/reject for declared values. Non-trivial = a loss sale with at least one acquisition settling within 31 days of it, or a sale carrying a declared value. Distinct = distinct case content.");
     d.assumptions = vec!["amounts compared within 1e-9 (the tool snaps amounts within 1e-10 of a cent to the cent)", "declared values on a registered affiliate's sale are not generated (the tool ignores them; the property does not settle the expectation)", "exactly 0.001 away from the computed value is not generated unless representable; 0.0009/0.0011 bracket the threshold"];
-    d.subs.push(Box::new(Sub::<LedgerCase> { name: "window", cases_quick: 25_000, cases_thorough: 1_200_000, strategy: Box::new(window_strategy), to_json: LedgerCase::to_json, from_json: LedgerCase::from_json, check: check_window }));
-    d.subs.push(Box::new(Sub::<LedgerCase> { name: "declared", cases_quick: 12_000, cases_thorough: 500_000, strategy: Box::new(declared_strategy), to_json: LedgerCase::to_json, from_json: LedgerCase::from_json, check: check_declared }));
+    d.subs.push(Box::new(Sub::<LedgerCase> { name: "window", cases_quick: 75_000, cases_thorough: 1_200_000, strategy: Box::new(window_strategy), to_json: LedgerCase::to_json, from_json: LedgerCase::from_json, check: check_window }));
+    d.subs.push(Box::new(Sub::<LedgerCase> { name: "declared", cases_quick: 36_000, cases_thorough: 500_000, strategy: Box::new(declared_strategy), to_json: LedgerCase::to_json, from_json: LedgerCase::from_json, check: check_declared }));
     d.subs.push(Box::new(cell_sub(0, true, 0, 0))); // registered for replay of sweep failures; the sweep itself runs in `extra`
     d.extra = Some(sweep);
     d
